@@ -47,14 +47,17 @@ def Txn.ConvBalanced (t : Txn) (c sc : String) (tr : Dec) : Prop :=
   ∀ k, partAt k (some (deltaOf t.amount.value.toPDec c (t.costOf c))) +
        partAt k (some (deltaOf (counterDec t.amount.value tr).toPDec sc (t.costOf sc))) = 0
 
-/-- **Shape of `to_double_entry` of a converted transaction for the book-keeping.** -/
-theorem toDoubleEntry_conv_ok (t : Txn) (acct c sc : String) (tr : Dec) (x : Rat)
+/-- **Shape of `to_double_entry` of a converted transaction for the book-keeping** (balanced or not): two postings
+of the accepted shape, whose contributions are the two terms of `Txn.ConvBalanced`. -/
+theorem toDoubleEntry_conv_shape (t : Txn) (acct c sc : String) (tr : Dec) (x : Rat)
     (hamount : t.amount.commodity = c) (htr : t.transferredAmount = some ⟨tr, sc⟩) (hch : t.charges = [])
     (hc : c ≠ "") (hsc : sc ≠ "") (hks : CostOK c (t.costOf c)) (hkd : CostOK sc (t.costOf sc))
-    (hbal : t.ConvBalanced c sc tr) (ho : t.OtherAccounts acct)
+    (ho : t.OtherAccounts acct)
     (hassert : t.balance = none ∨ ∃ b, t.balance = some ⟨b, c⟩ ∧ b.toRat = x + t.amount.value.toRat) :
     ∃ trn, t.toDoubleEntry acct = .ok trn ∧ trn.date = t.date ∧ PostingsOKx acct c x trn.posts ∧
-      (∀ k, sumD k trn.posts = 0) ∧ finalX acct x trn.posts = x + t.amount.value.toRat := by
+      (∀ k, sumD k trn.posts = partAt k (some (deltaOf t.amount.value.toPDec c (t.costOf c))) +
+        partAt k (some (deltaOf (counterDec t.amount.value tr).toPDec sc (t.costOf sc)))) ∧
+      finalX acct x trn.posts = x + t.amount.value.toRat := by
   have hsrcAmt : (t.srcPosting acct).amount =
       some { amount := .amt t.amount.value.toPDec c, cost := costSyntax (t.costOf c), lot := {} } := by
     simp [Txn.srcPosting, Txn.srcAmount, Txn.toPostingAmount, Txn.asSyntaxAmount, Txn.rate_eq_costSyntax, hamount]
@@ -82,8 +85,6 @@ theorem toDoubleEntry_conv_ok (t : Txn) (acct c sc : String) (tr : Dec) (x : Rat
   have hstepDest : ∀ fb y v, (fb = "Income:Unknown" ∨ fb = "Expenses:Unknown") →
       stepX acct y (t.destPosting fb).account v = y := by
     intro fb y v hfb; simp [stepX, hdestAcc fb hfb]
-  have hbal' := hbal
-  unfold Txn.ConvBalanced at hbal'
   unfold Txn.toDoubleEntry Txn.postings Txn.chargePostings
   rw [hch]
   by_cases hpos : t.amount.value.isSignPositive = true
@@ -93,7 +94,6 @@ theorem toDoubleEntry_conv_ok (t : Txn) (acct c sc : String) (tr : Dec) (x : Rat
       refine ⟨_, _, _, hdestAmt _, hsc, hkd, fun h => absurd h (hdestAcc _ (Or.inl rfl)), Or.inl (hdestBal _), trivial⟩
     · intro k
       simp only [sumD, postDelta_shape _ _ _ _ _ hsrcAmt, postDelta_shape _ _ _ _ _ (hdestAmt _)]
-      have := hbal' k
       grind
     · rw [finalX_cons_amt acct x _ _ _ _ _ _ hsrcAmt, finalX_cons_amt acct _ _ _ _ _ _ _ (hdestAmt _)]
       simp only [finalX, hstepSrc, hstepDest _ _ _ (Or.inl rfl)]
@@ -108,10 +108,20 @@ theorem toDoubleEntry_conv_ok (t : Txn) (acct c sc : String) (tr : Dec) (x : Rat
       exact ⟨_, _, _, hsrcAmt, hc, hks, fun _ => rfl, hsrcBal x rfl, trivial⟩
     · intro k
       simp only [sumD, postDelta_shape _ _ _ _ _ hsrcAmt, postDelta_shape _ _ _ _ _ (hdestAmt _)]
-      have := hbal' k
       grind
     · rw [finalX_cons_amt acct x _ _ _ _ _ _ (hdestAmt _), finalX_cons_amt acct _ _ _ _ _ _ _ hsrcAmt]
       simp only [finalX, hstepSrc, hstepDest _ _ _ (Or.inr rfl)]
+
+/-- a balanced converted transaction prints a balanced transaction -/
+theorem toDoubleEntry_conv_ok (t : Txn) (acct c sc : String) (tr : Dec) (x : Rat)
+    (hamount : t.amount.commodity = c) (htr : t.transferredAmount = some ⟨tr, sc⟩) (hch : t.charges = [])
+    (hc : c ≠ "") (hsc : sc ≠ "") (hks : CostOK c (t.costOf c)) (hkd : CostOK sc (t.costOf sc))
+    (hbal : t.ConvBalanced c sc tr) (ho : t.OtherAccounts acct)
+    (hassert : t.balance = none ∨ ∃ b, t.balance = some ⟨b, c⟩ ∧ b.toRat = x + t.amount.value.toRat) :
+    ∃ trn, t.toDoubleEntry acct = .ok trn ∧ trn.date = t.date ∧ PostingsOKx acct c x trn.posts ∧
+      (∀ k, sumD k trn.posts = 0) ∧ finalX acct x trn.posts = x + t.amount.value.toRat := by
+  obtain ⟨trn, h1, h2, h3, h4, h5⟩ := toDoubleEntry_conv_shape t acct c sc tr x hamount htr hch hc hsc hks hkd ho hassert
+  exact ⟨trn, h1, h2, h3, fun k => by rw [h4 k]; exact hbal k, h5⟩
 
 /-! ## the consistency condition, by the commodity the rate prices -/
 
@@ -260,6 +270,230 @@ theorem Txn.balanced_of_zero_charges (t : Txn) (htr : t.transferredAmount = none
   rw [htr, chargeSum_zero _ hch]
   simp only [Dec.negate_toRat]
   grind
+
+/-! ## necessity: an inconsistent conversion is rejected -/
+
+/-- the rate sits on the account posting (`price_of_primary`) -/
+structure Txn.RatePrimary (t : Txn) (c sc : String) (r : Dec) : Prop where
+  rateC : AMap.get? t.rates c = some ⟨r, sc⟩
+  rateSc : AMap.get? t.rates sc = none
+
+/-- the rate sits on the counter-posting (`price_of_secondary`) -/
+structure Txn.RateSecondary (t : Txn) (c sc : String) (r : Dec) : Prop where
+  rateC : AMap.get? t.rates c = none
+  rateSc : AMap.get? t.rates sc = some ⟨r, c⟩
+
+theorem Txn.ConvPrimary.rate {t : Txn} {c sc : String} {tr r : Dec} (h : t.ConvPrimary c sc tr r) :
+    t.RatePrimary c sc r := ⟨h.rateC, h.rateSc⟩
+theorem Txn.ConvSecondary.rate {t : Txn} {c sc : String} {tr r : Dec} (h : t.ConvSecondary c sc tr r) :
+    t.RateSecondary c sc r := ⟨h.rateC, h.rateSc⟩
+
+/-- the primary amount and the counter amount have opposite sign flags: `r·a + d = 0 ↔ |tr| = r·|a|` -/
+theorem primary_cancel_iff (a tr : Dec) (r : Rat) :
+    r * a.toRat + (counterDec a tr).toRat = 0 ↔ tr.absRat = r * a.absRat := by
+  rw [counterDec_toRat, Dec.toRat_eq a]
+  cases a.neg <;> simp <;> constructor <;> intro h <;> grind
+
+theorem secondary_cancel_iff (a tr : Dec) (r : Rat) :
+    a.toRat + r * (counterDec a tr).toRat = 0 ↔ a.absRat = r * tr.absRat := by
+  rw [counterDec_toRat, Dec.toRat_eq a]
+  cases a.neg <;> simp <;> constructor <;> intro h <;> grind
+
+theorem Txn.RatePrimary.sum {t : Txn} {c sc : String} {r : Dec} (h : t.RatePrimary c sc r) (tr : Dec) (k : String) :
+    partAt k (some (deltaOf t.amount.value.toPDec c (t.costOf c))) +
+      partAt k (some (deltaOf (counterDec t.amount.value tr).toPDec sc (t.costOf sc))) =
+    if sc = k then r.toRat * t.amount.value.toRat + (counterDec t.amount.value tr).toRat else 0 := by
+  have h1 : t.costOf c = some (r.toPDec, sc) := by simp [Txn.costOf, h.rateC]
+  have h2 : t.costOf sc = none := by simp [Txn.costOf, h.rateSc]
+  rw [h1, h2]
+  simp only [deltaOf, partAt, Dec.toPDec_toRat]
+  by_cases hk : sc = k <;> simp [hk]
+
+theorem Txn.RateSecondary.sum {t : Txn} {c sc : String} {r : Dec} (h : t.RateSecondary c sc r) (tr : Dec) (k : String) :
+    partAt k (some (deltaOf t.amount.value.toPDec c (t.costOf c))) +
+      partAt k (some (deltaOf (counterDec t.amount.value tr).toPDec sc (t.costOf sc))) =
+    if c = k then t.amount.value.toRat + r.toRat * (counterDec t.amount.value tr).toRat else 0 := by
+  have h1 : t.costOf c = none := by simp [Txn.costOf, h.rateC]
+  have h2 : t.costOf sc = some (r.toPDec, c) := by simp [Txn.costOf, h.rateSc]
+  rw [h1, h2]
+  simp only [deltaOf, partAt, Dec.toPDec_toRat]
+  by_cases hk : c = k <;> simp [hk]
+
+/-- with the rate on the account posting, the transaction balances **iff** `|tr| = r·|amount|` -/
+theorem Txn.RatePrimary.balanced_iff {t : Txn} {c sc : String} {r : Dec} (h : t.RatePrimary c sc r) (tr : Dec) :
+    t.ConvBalanced c sc tr ↔ tr.absRat = r.toRat * t.amount.value.absRat := by
+  rw [← primary_cancel_iff]
+  unfold Txn.ConvBalanced
+  constructor
+  · intro hb
+    have := hb sc
+    rw [h.sum tr sc] at this
+    simpa using this
+  · intro hb k
+    rw [h.sum tr k]
+    by_cases hk : sc = k <;> simp [hk, hb]
+
+/-- with the rate on the counter-posting, the transaction balances **iff** `|amount| = r·|tr|` -/
+theorem Txn.RateSecondary.balanced_iff {t : Txn} {c sc : String} {r : Dec} (h : t.RateSecondary c sc r) (tr : Dec) :
+    t.ConvBalanced c sc tr ↔ t.amount.value.absRat = r.toRat * tr.absRat := by
+  rw [← secondary_cancel_iff]
+  unfold Txn.ConvBalanced
+  constructor
+  · intro hb
+    have := hb c
+    rw [h.sum tr c] at this
+    simpa using this
+  · intro hb k
+    rw [h.sum tr k]
+    by_cases hk : c = k <;> simp [hk, hb]
+
+/-- a converted row, consistent or not: transferred amount `tr sc`, a non-zero rate `r` on one of the two
+commodities, no charge -/
+structure Txn.ConvShape (c sc : String) (tr r : Dec) (t : Txn) : Prop where
+  sc_ne : sc ≠ ""
+  ne : sc ≠ c
+  rate_ne : r.toRat ≠ 0
+  amount : t.amount.commodity = c
+  transferred : t.transferredAmount = some ⟨tr, sc⟩
+  charges : t.charges = []
+  mode : t.RatePrimary c sc r ∨ t.RateSecondary c sc r
+
+/-- **the** consistency condition of a converted row, by where the rate sits -/
+def Txn.ConvConsistent (t : Txn) (c sc : String) (tr r : Dec) : Prop :=
+  (t.RatePrimary c sc r → tr.absRat = r.toRat * t.amount.value.absRat) ∧
+  (t.RateSecondary c sc r → t.amount.value.absRat = r.toRat * tr.absRat)
+
+theorem Txn.ConvShape.costs {t : Txn} {c sc : String} {tr r : Dec} (h : t.ConvShape c sc tr r) (hc : c ≠ "") :
+    CostOK c (t.costOf c) ∧ CostOK sc (t.costOf sc) := by
+  rcases h.mode with hp | hs
+  · have h1 : t.costOf c = some (r.toPDec, sc) := by simp [Txn.costOf, hp.rateC]
+    have h2 : t.costOf sc = none := by simp [Txn.costOf, hp.rateSc]
+    rw [h1, h2]; exact ⟨⟨h.sc_ne, h.ne, h.rate_ne⟩, trivial⟩
+  · have h1 : t.costOf c = none := by simp [Txn.costOf, hs.rateC]
+    have h2 : t.costOf sc = some (r.toPDec, c) := by simp [Txn.costOf, hs.rateSc]
+    rw [h1, h2]; exact ⟨trivial, ⟨hc, Ne.symm h.ne, h.rate_ne⟩⟩
+
+/-- a rate cannot sit on both postings -/
+theorem Txn.rate_modes_exclusive {t : Txn} {c sc : String} {r : Dec} (hp : t.RatePrimary c sc r)
+    (hs : t.RateSecondary c sc r) : False := by
+  have := hp.rateC
+  rw [hs.rateC] at this
+  simp at this
+
+theorem Txn.ConvShape.row_of_consistent {t : Txn} {c sc : String} {tr r : Dec} (h : t.ConvShape c sc tr r)
+    (hcons : t.ConvConsistent c sc tr r) : t.RowOK c := by
+  refine Or.inr ⟨h.charges, sc, tr, r, h.sc_ne, h.ne, h.rate_ne, h.amount, h.transferred, ?_⟩
+  rcases h.mode with hp | hs
+  · exact Or.inl ⟨hp.rateC, hp.rateSc, hcons.1 hp⟩
+  · exact Or.inr ⟨hs.rateC, hs.rateSc, hcons.2 hs⟩
+
+/-- an inconsistent converted row leaves a residual in exactly one commodity -/
+theorem Txn.ConvShape.residual {t : Txn} {c sc : String} {tr r : Dec} (h : t.ConvShape c sc tr r)
+    (hcons : ¬ t.ConvConsistent c sc tr r) :
+    ∃ k0, (partAt k0 (some (deltaOf t.amount.value.toPDec c (t.costOf c))) +
+        partAt k0 (some (deltaOf (counterDec t.amount.value tr).toPDec sc (t.costOf sc))) ≠ 0) ∧
+      ∀ k, k ≠ k0 → partAt k (some (deltaOf t.amount.value.toPDec c (t.costOf c))) +
+        partAt k (some (deltaOf (counterDec t.amount.value tr).toPDec sc (t.costOf sc))) = 0 := by
+  rcases h.mode with hp | hs
+  · have hnot : ¬ tr.absRat = r.toRat * t.amount.value.absRat := by
+      intro hc
+      exact hcons ⟨fun _ => hc, fun hs => (Txn.rate_modes_exclusive hp hs).elim⟩
+    refine ⟨sc, ?_, ?_⟩
+    · rw [hp.sum tr sc]
+      simp only [if_true]
+      exact fun h0 => hnot ((primary_cancel_iff _ _ _).1 h0)
+    · intro k hk
+      rw [hp.sum tr k]
+      simp [Ne.symm hk]
+  · have hnot : ¬ t.amount.value.absRat = r.toRat * tr.absRat := by
+      intro hc
+      exact hcons ⟨fun hp => (Txn.rate_modes_exclusive hp hs).elim, fun _ => hc⟩
+    refine ⟨c, ?_, ?_⟩
+    · rw [hs.sum tr c]
+      simp only [if_true]
+      exact fun h0 => hnot ((secondary_cancel_iff _ _ _).1 h0)
+    · intro k hk
+      rw [hs.sum tr k]
+      simp [Ne.symm hk]
+
+theorem ledgerOf_cons (acct : String) (t : Txn) (rest : List Txn) (trs : List Transaction)
+    (h : ledgerOf acct (t :: rest) = .ok trs) :
+    ∃ x xs, t.toDoubleEntry acct = .ok x ∧ ledgerOf acct rest = .ok xs ∧ trs = x :: xs := by
+  unfold ledgerOf at h
+  split at h <;> try (simp at h; done)
+  rename_i x hx
+  split at h <;> try (simp at h; done)
+  rename_i xs hxs
+  simp only [Outcome.ok.injEq] at h
+  exact ⟨x, xs, hx, hxs, h.symm⟩
+
+theorem ledgerOf_length (acct : String) : ∀ (l : List Txn) (trs : List Transaction),
+    ledgerOf acct l = .ok trs → trs.length = l.length := by
+  intro l
+  induction l with
+  | nil => intro trs h; simp [ledgerOf] at h; subst h; rfl
+  | cons t ts ih =>
+    intro trs h
+    obtain ⟨x, xs, _, hxs, he⟩ := ledgerOf_cons acct t ts trs h
+    subst he
+    simp [ih xs hxs]
+
+theorem ledgerOf_append (acct : String) : ∀ (pre : List Txn) (rest : List Txn) (trs : List Transaction),
+    ledgerOf acct (pre ++ rest) = .ok trs →
+    ∃ t1 t2, ledgerOf acct pre = .ok t1 ∧ ledgerOf acct rest = .ok t2 ∧ trs = t1 ++ t2 := by
+  intro pre
+  induction pre with
+  | nil => intro rest trs h; exact ⟨[], trs, rfl, h, rfl⟩
+  | cons t ts ih =>
+    intro rest trs h
+    simp only [List.cons_append] at h
+    unfold ledgerOf at h
+    split at h <;> try (simp at h; done)
+    rename_i x hx
+    split at h <;> try (simp at h; done)
+    rename_i xs hxs
+    simp only [Outcome.ok.injEq] at h
+    obtain ⟨t1, t2, h1, h2, h3⟩ := ih rest xs hxs
+    refine ⟨x :: t1, t2, ?_, h2, ?_⟩
+    · simp [ledgerOf, hx, h1]
+    · rw [← h, h3]; rfl
+
+/-- **Necessity.**  After any accepted run, a converted row that is *not* consistent with its rate is rejected by
+the book-keeping as unbalanced — whatever follows it. -/
+theorem run_rejects_inconsistent (acct c : String) (hc : c ≠ "") (hne : "Equity:Opening" ≠ acct) (date : Date)
+    (b₀ : Dec) (pre : List Txn) (t : Txn) (post : List Txn) (sc : String) (tr r : Dec)
+    (hpre : RunOKx acct c b₀.toRat pre) (hshape : t.ConvShape c sc tr r) (ho : t.OtherAccounts acct)
+    (hassert : t.balance = none ∨
+      ∃ b, t.balance = some ⟨b, c⟩ ∧ b.toRat = runX b₀.toRat pre + t.amount.value.toRat)
+    (hcons : ¬ t.ConvConsistent c sc tr r) (trs : List Transaction)
+    (hl : ledgerOf acct (pre ++ t :: post) = .ok trs) :
+    ∃ res, process (Entry.txn (fundTxn acct date b₀ c) :: trs.map Entry.txn) = .err (pre.length + 1, .unbalanced res) := by
+  obtain ⟨t1, t2, h1, h2, h3⟩ := ledgerOf_append acct pre (t :: post) trs hl
+  obtain ⟨trs1, hl1, hok1, hx1⟩ := ledgerOf_okx acct c hc pre _ hpre
+  rw [h1] at hl1
+  simp only [Outcome.ok.injEq] at hl1
+  subst hl1
+  obtain ⟨hks, hkd⟩ := hshape.costs hc
+  obtain ⟨trn, htrn, _, hp, hs, _⟩ := toDoubleEntry_conv_shape t acct c sc tr (runX b₀.toRat pre) hshape.amount
+    hshape.transferred hshape.charges hc hshape.sc_ne hks hkd ho hassert
+  obtain ⟨x, t3, hx, _, he⟩ := ledgerOf_cons acct t post t2 h2
+  rw [htrn] at hx
+  simp only [Outcome.ok.injEq] at hx
+  subst hx
+  subst he
+  subst h3
+  obtain ⟨hf1, hf2, hf3⟩ := fundTxn_ok acct c date b₀ hne
+  obtain ⟨hf4, hf5⟩ := PostingsOKx_of_PostingsOK acct c hc _ 0 hf1
+  have hledger : LedgerOKx acct c 0 (fundTxn acct date b₀ c :: t1) :=
+    ⟨hf4, fun k => by rw [hf5 k, hf2]; simp, by rw [hf3]; exact hok1⟩
+  have hX : ledgerX acct 0 (fundTxn acct date b₀ c :: t1) = runX b₀.toRat pre := by
+    simp only [ledgerX, hf3]; exact hx1
+  obtain ⟨k0, hk0, hothers⟩ := hshape.residual hcons
+  obtain ⟨res, hres⟩ := process_rejectx acct c hc (fundTxn acct date b₀ c :: t1) trn t3 hledger (by rw [hX]; exact hp)
+    ⟨k0, by rw [hs k0]; exact hk0, fun k hk => by rw [hs k]; exact hothers k hk⟩
+  refine ⟨res, ?_⟩
+  have hlen : t1.length = pre.length := ledgerOf_length acct pre t1 h1
+  simpa [hlen, Nat.add_comm] using hres
 
 end Import
 end Okane
